@@ -229,6 +229,30 @@ def rootcache_shard(acc, seed: int, part: int) -> None:
                     okp = False
                 if not okp:
                     acc.violate("rootcache.protect", ["rootcache-protect", part, rnd, sid], {"outcome": kind}, size=rnd)
+    # protect on the long-lived cache while the clock steps BACKWARDS (and forwards again) across L2 / L1 / L0 boundaries: each blob is made
+    # with the key of the interval it names (the reference decryptor opens it)
+    for api_ in ("sync", "async"):
+        for li, pos in enumerate([(360, 7, 3), (360, 5, 9), (360, 5, 8), (360, 4, 31), (360, 0, 0), (359, 31, 31), (360, 4, 31), (361, 0, 0), (360, 31, 31)]):
+            ft_ = ((pos[0] * 1024) + pos[1] * 32 + pos[2]) * gkdi.B + 7
+
+            def _prot(api_=api_):
+                with seams.clock(ft_):
+                    if api_ == "sync":
+                        return dpapi_ng.ncrypt_protect_secret(PT, sids[0], root_key_identifier=rk.rkid, cache=cache)
+                    from mc import vloop
+
+                    return vloop.run(dpapi_ng.async_ncrypt_protect_secret(PT, sids[0], root_key_identifier=rk.rkid, cache=cache))
+
+            kind, val = seams.outcome_of(_prot)
+            n += 1
+            try:
+                okp = kind == "ok" and cms.ref_decrypt(rk, bytes(val)) == PT
+                kid_ = gkdi.unpack_keyid(cms.decode(bytes(val)).keyid) if kind == "ok" else None
+                okp = okp and (kid_.l0, kid_.l1, kid_.l2) == pos
+            except Exception:  # noqa: BLE001
+                okp = False
+            if not okp:
+                acc.violate("rootcache.protect-clock-steps", ["rootcache", part, "clock-steps", api_, li, list(pos)], {"outcome": kind, "value": repr(val)[:80]})
     # root key BYTES with special octets at either end (ASCII white space, NUL, 0xFF, quote): the key is binary, nothing may be trimmed
     for edge in (b" ", b"\n", b"\t\r", b"\x00", b"\xff", b"\x0b\x0c", b"'", b"="):
         for where in ("head", "tail", "both"):
